@@ -409,6 +409,15 @@ def run_saw(desc, c, e, add, rng):
     bs = int([1, 2, 3, 5, n_pairs][rng.randint(5)])
     nps = int(rng.randint(1, 4))
     kw = dict(e.kwargs(c.ctx), X=c.X.copy(), y=Y.copy(), batch_size=bs, n_annotators_per_sample=nps, return_utilities=True)
+    # annotator performances only rank the annotators of a sample; whatever their scale (incl. exact 0 / 1 entries of a
+    # binary expertise matrix) they must not reorder the samples
+    aperf = [None, "vec", "mat", "binary", "binary"][rng.randint(5)]
+    if aperf == "vec":
+        kw["A_perf"] = np.round(rng.rand(A), 2)
+    elif aperf == "mat":
+        kw["A_perf"] = np.round(rng.rand(c.n, A) * rng.choice([1.0, 10.0]), 2)
+    elif aperf == "binary":
+        kw["A_perf"] = (rng.rand(c.n, A) < 0.5).astype(float)
     steps.begin()
     try:
         out = qs.query(**kw)
@@ -432,7 +441,7 @@ def run_saw(desc, c, e, add, rng):
     avail = np.isnan(Y)
     seq = [s for s in inner_seq if avail[s].any()]
     if order != seq[:len(order)]:
-        add("samples-not-in-the-inner-strategy's-order", "pairs %s -> samples %s, inner strategy returned %s" % (pairs, order, inner_seq))
+        add("samples-not-in-the-inner-strategy's-order", "pairs %s -> samples %s, inner strategy returned %s (A_perf: %s)" % (pairs, order, inner_seq, aperf))
     return {"nontrivial": len(order) >= 2}
 
 
